@@ -21,7 +21,7 @@ EXPLANATION = (
 
 def run(model, tier="quick"):
     res = Result("C13", EXPLANATION)
-    res.rules = ["R-CACHE", "R-EFFECT", "R-FORMULA", "R-PAIR"]
+    res.rules = ["R-CACHE", "R-EFFECT", "R-FORMULA", "R-PAIR", "R-CONST"]
     n_writers, caches = run_cache(model, res, "AaveV3Market", "C13")
     res.floor("caches_found", len(caches), 5)
     res.floor("dependency_writer_methods", n_writers, 6)
@@ -37,6 +37,19 @@ def run(model, tier="quick"):
     formula_check(res, model, "AaveV3Market.ltv", R.REF_LTV, "ltv = total debt value / total supply value (inf without supplies)", opaque=views)
     formula_check(res, model, "AaveV3CoreLib.get_apy", R.REF_GET_APY, "apy = value-weighted mean of the per-token APYs", opaque=views)
     formula_check(res, model, "AaveV3CoreLib.safe_div_zero", R.REF_SAFE_DIV, "a/b, 0 when b is 0")
+    from ..interp import const_value
+    from ..model import AnalysisError
+    _cls = model.cls("AaveV3CoreLib")
+    _y = model.class_const(_cls, "SECONDS_IN_A_YEAR")
+    if _y is None:
+        raise AnalysisError("C13: AaveV3CoreLib.SECONDS_IN_A_YEAR anchor not found")
+    _ok = const_value(_y[1]) == 365 * 24 * 3600
+    res.ob("R-CONST", "SECONDS_IN_A_YEAR == 365 days (code and reference both read it by name)", _cls.module.relpath + f":{_y[1].lineno}", ok=_ok)
+    if not _ok:
+        res.find("R-CONST", "AaveV3CoreLib", "SECONDS_IN_A_YEAR != 31536000", _cls.module.relpath + f":{_y[1].lineno}",
+                 "the compounding period of rate_to_apy is not the Aave v3 year of 365 days")
+    formula_check(res, model, "AaveV3CoreLib.rate_to_apy", R.REF_RATE_TO_APY,
+                  "apy = per-second rate compounded over a year: (1 + r/Y)**Y - 1 (test_apy_to_rate samples one value)")
     formula_check(res, model, "AaveV3CoreLib.safe_rounding", R.REF_SAFE_ROUNDING,
                   "reported risk figures: the value quantized to the step in the context's (half-even) rounding, inf / nan passed through")
     formula_check(res, model, "AaveV3Market.total_apy", R.REF_TOTAL_APY, "net apy = (supply apy*supplies - borrow apy*debts)/(supplies - debts)",
